@@ -5,10 +5,10 @@ package menv
 
 import (
 	"context"
-	"net/http"
 	"database/sql"
 	"errors"
 	"fmt"
+	"net/http"
 	"os"
 	"path/filepath"
 	"sort"
@@ -439,4 +439,37 @@ func (e *Env) DBState(secret, meltQuote string) (proof, quote, preimage string, 
 		preimage = pre.String
 	}
 	return
+}
+
+// SecretStates reads the mint-side state of secrets through a read-only connection
+// (no Lightning lookups, no side effects): UNSPENT | PENDING | SPENT.
+func (e *Env) SecretStates(secrets []string) (map[string]string, error) {
+	p := filepath.Join(e.Dir, "mint.sqlite.db")
+	db, err := sql.Open("sqlite3", "file:"+p+"?mode=ro&_busy_timeout=5000")
+	if err != nil {
+		return nil, err
+	}
+	defer db.Close()
+	out := make(map[string]string, len(secrets))
+	for _, s := range secrets {
+		out[s] = "UNSPENT"
+	}
+	for _, q := range []struct{ table, st string }{{"pending_proofs", "PENDING"}, {"proofs", "SPENT"}} {
+		rows, err := db.Query("SELECT secret FROM " + q.table)
+		if err != nil {
+			return nil, err
+		}
+		for rows.Next() {
+			var s string
+			if err := rows.Scan(&s); err != nil {
+				rows.Close()
+				return nil, err
+			}
+			if _, ok := out[s]; ok {
+				out[s] = q.st
+			}
+		}
+		rows.Close()
+	}
+	return out, nil
 }
